@@ -58,6 +58,7 @@ package store
 // Assumed (result shape + frame), see the part file.
 //@ func (*ImmuStore).ReadTxHeader
 //@   assigns internal
+//@   ensures c06_gate: r1 == nil && !allowPrecommitted ==> txID <= s.committedTxID
 //@   ensures hdr: r1 == nil ==> r0 != nil && (r0.Version == 0 || r0.Version == 1)
 
 // (*Tx).Header returns a fresh copy of the holder's header (same version: innerHash/Alh can hash it).
